@@ -114,13 +114,13 @@ Local Open Scope string_scope.
    104  archive_read_support_format_cpio.c:228  [archive_read_support_format_cpio]  ARCHIVE_STATE_NEW
    105  archive_read_support_format_empty.c:44  [archive_read_support_format_empty]  ARCHIVE_STATE_NEW
    106  archive_read_support_format_iso9660.c:463  [archive_read_support_format_iso9660]  ARCHIVE_STATE_NEW
-   107  archive_read_support_format_lha.c:264  [archive_read_support_format_lha]  ARCHIVE_STATE_NEW
+   107  archive_read_support_format_lha.c:263  [archive_read_support_format_lha]  ARCHIVE_STATE_NEW
    108  archive_read_support_format_mtree.c:273  [archive_read_support_format_mtree]  ARCHIVE_STATE_NEW
    109  archive_read_support_format_rar.c:734  [archive_read_support_format_rar]  ARCHIVE_STATE_NEW
    110  archive_read_support_format_rar5.c:895  [archive_read_support_format_rar5]  ARCHIVE_STATE_NEW
    111  archive_read_support_format_raw.c:61  [archive_read_support_format_raw]  ARCHIVE_STATE_NEW
-   112  archive_read_support_format_tar.c:254  [archive_read_support_format_gnutar]  ARCHIVE_STATE_NEW
-   113  archive_read_support_format_tar.c:267  [archive_read_support_format_tar]  ARCHIVE_STATE_NEW
+   112  archive_read_support_format_tar.c:258  [archive_read_support_format_gnutar]  ARCHIVE_STATE_NEW
+   113  archive_read_support_format_tar.c:271  [archive_read_support_format_tar]  ARCHIVE_STATE_NEW
    114  archive_read_support_format_warc.c:145  [archive_read_support_format_warc]  ARCHIVE_STATE_NEW
    115  archive_read_support_format_xar.c:74  [archive_read_support_format_xar]  ARCHIVE_STATE_NEW
    116  archive_read_support_format_xar.c:450  [archive_read_support_format_xar]  ARCHIVE_STATE_NEW
